@@ -28,6 +28,24 @@ class Ctx:
         return self._eff
 
 
+FACT = {'eig', 'svd', 'eigh', 'eigh1', 'qr', 'qr_full', 'cholesky', 'lu', 'lu2', 'lu_factor', '_qr', '_qr_rectangular', '_qr_full',
+        '_cholesky', '_eigh', 'piv2mat', 'piv2det', 'det', 'logdet'}
+
+
+def _only(rule, names, rid):
+    """restrict a whole-package rule to findings located in the named functions (and rename it)"""
+    def wrapped(ctx):
+        r = rule(ctx)
+        r.findings = [f for f in r.findings if f.func.split(':')[-1].split('.')[-1] in names]
+        for f in r.findings:
+            f.rule = rid
+        r.rule = rid
+        r.instances = r.holding + len(r.findings) + len(r.unknowns)
+        return r
+    wrapped.__name__ = rid
+    return wrapped
+
+
 def registry():
     from . import rules_tracer as T
     reg = {}
@@ -72,7 +90,7 @@ def registry():
                     'equality of results across concrete histories.',
         assumptions=['library summary tables of verif/effects.py', 'the structural shape of CGraph.pullback (three top-level loops)'])
     if A is not None:
-        reg['C04'] = dict(rules=[A.rule_drv_order, T.rule_drv_fresh, T.rule_setitem_copy, A.rule_drv_flow, T.rule_sweep_init],
+        reg['C04'] = dict(rules=[A.rule_drv_order, T.rule_drv_fresh, T.rule_setitem_copy, A.rule_drv_flow, A.rule_drv_layout, T.rule_sweep_init],
                           explanation='Static decision of the driver protocol. Decides: on every path of each of the 8 drivers '
                                       'forward evaluation precedes the reverse sweep which precedes the read of xbar/x '
                                       '(R-drv-order); the point x and every supplied vector flow into the forward seed / '
@@ -133,7 +151,8 @@ def registry():
                         'NOT decided: output-shape formulas of dot for N-D operands, Pade coefficients, values.',
             assumptions=['the weight calculus'])
         reg['C08'] = dict(
-            rules=[G.rule_grade('C08'), lambda ctx: S.rule_base(ctx, ['_cholesky', '_qr_rectangular', '_qr_full', '_eigh1'], 'C08.base')],
+            rules=[G.rule_grade('C08'), lambda ctx: S.rule_base(ctx, ['_cholesky', '_qr_rectangular', '_qr_full', '_eigh1'], 'C08.base'),
+                   _only(P.rule_p3, FACT, 'C08.dir-after'), _only(P.rule_p3b, FACT, 'C08.dir-carried')],
             explanation='Static decision of structural conditions of the factorization recurrences: in _qr_rectangular, _qr_full, _cholesky, '
                         '_eigh1, lu, lu2, lu_factor every residual (dF, dG, H, S, K) and every factor coefficient is homogeneous of the order '
                         'being defined (O3) and the residual sums are maximal (O4); base points come from numpy.linalg.qr / scipy.linalg.qr / '
@@ -150,7 +169,7 @@ def registry():
             assumptions=['affine index domain with Fourier-Motzkin style bound elimination; violations are reported only with a concrete witness valuation'])
     if S is not None and G is not None:
         reg['C10'] = dict(
-            rules=[S.rule_cmp, S.rule_shape, lambda ctx: S.rule_base(ctx, None, 'C10.base'), S.rule_dispatch],
+            rules=[S.rule_cmp, S.rule_shape, lambda ctx: S.rule_base(ctx, None, 'C10.base'), S.rule_dispatch, S.rule_linalg_kinds, S.rule_kinds, S.rule_kernel_dtype],
             explanation='Static decision of the NumPy-agreement clauses that are visible in the shape of the code: comparison methods return '
                         'numpy.all(<own operator>(zeroth coefficients)) (C10.cmp); shape/size/ndim/len read one coefficient slice '
                         '(C10.shape); every kernel computes its zeroth coefficient with the NumPy/SciPy function it is named after '
